@@ -61,7 +61,12 @@ def run(ctx):
     nonempty = 0
     for r in wit:
         if r["lexed"][:-1] != r["intended"]:
-            ctx.notes.append("witness for (%d,%d) not renderable as text: %s" % (r["sym"], r["alt"], r["text"]))
+            # the token-level witness has no textual form the real lexer turns into these tokens (the search prefers
+            # lexable sentences over all contexts it tries): no concrete STATEMENT is known that takes this alternative
+            ctx.violation({"kind": "alternative-without-textual-witness", "case": r,
+                           "explain": "the parser model takes this alternative on the token sentence, but its rendering does not "
+                                      "lex to those tokens: no statement text was found that the real lexer + parser accept by "
+                                      "taking alternative %d of rule %d" % (r["alt"], r["sym"])})
             continue
         if not r["accepted"]:
             ctx.violation({"kind": "witness-rejected-by-real-parser", "case": r})
